@@ -84,6 +84,18 @@ fn tape_from_byte_json(input: &Value) -> Tape {
 
 pub fn replay(check: &str, input: &Value, stats: &mut Stats) -> Option<Vec<Failure>> {
     match check {
+        "c01.files" => {
+            // explicit sources: [{path, content}], mode
+            let files: Vec<(String, String)> = input["files"].as_array()?.iter().filter_map(|f| Some((f["path"].as_str()?.to_string(), f["content"].as_str()?.to_string()))).collect();
+            let cfg = crate::tool::Cfg::mode(input["mode"].as_str().unwrap_or("none"));
+            stats.eval();
+            let out = generate(&files, &cfg);
+            let case = json!({"files": input["files"], "mode": cfg.mode});
+            if let Err(e) = &out.result {
+                return Some(vec![Failure::new("tool_error").observed(e.clone()).expected("generation succeeds").case(case)]);
+            }
+            Some(check_files(&out.files, &[format!("mode={}", cfg.mode)], &case))
+        }
         "c01.fuzz_tape" => {
             let mut tape = tape_from_byte_json(input);
             let mut avoided = 0;
